@@ -310,7 +310,24 @@ def gen_grid_case(rnd):
     return {'graph': g, 'trace': tr, 'cfg': cfg}
 
 
+def add_times(case):
+    """1 case in 5 carries time stamps as a third component of every observation (x, y, t): the geometry of the model is
+    that of the first two components only.  Drawn from a generator derived from the trace itself, so that the other draws
+    of a case are unaffected."""
+    import zlib
+    r = random.Random(zlib.crc32(repr(case['trace']).encode()))
+    if r.random() < 0.2 and all(len(p) == 2 for p in case['trace']):
+        t0, dt = r.choice([(0.0, 5.0), (1.6e9, 1.0), (0.0, 0.5), (100.0, 60.0)])
+        case['trace'] = [(p[0], p[1], t0 + i * dt) for i, p in enumerate(case['trace'])]
+        case['timed'] = True
+    return case
+
+
 def gen_case(rnd, **kw):
+    return add_times(_gen_case(rnd, **kw))
+
+
+def _gen_case(rnd, **kw):
     if kw.get('grid'):
         return gen_grid_case(rnd)
     if kw.get('laps'):
